@@ -7,7 +7,8 @@ CONSTANTS
   Handles <- QA_Handles
   DepSets <- QA_DepSets
   HandlerSeqs <- QA_HSeqs
-  UpRegs <- QA_UpRegs
+  UpProgs <- QA_UpProgs
+  CRProg <- QA_CR
   QuitOn = FALSE
   QuitDeferred = FALSE
   DefCap = 0
